@@ -51,6 +51,9 @@ def systems(tier):
     # off-lattice start point 0.05 nm from a site the chain reaches: only the 0.1 nm floor can reject it (force limit disabled)
     out.append(dict(types=["CH3", "W"], molecules=[("W", 1), ("CH3", 1)], box=[2.5, 2.5, 2.5],
                     grid=[[0.80, 0.25, 0.25], [0.25, 0.25, 0.25], [1.25, 1.30, 1.25], [2.0, 2.0, 2.0]], kwargs=dict(max_force=1e30)))
+    # declared cyclic molecules: the ring closing residue has a second positioned bonded neighbour
+    out.append(dict(types=["RING4"], molecules=[("RING4", 2)], kwargs=dict(cycles=["RING4"], cycle_tol=0.3), **base))
+    out.append(dict(types=["RING5"], molecules=[("RING5", 1)], kwargs=dict(cycles=["RING5"], cycle_tol=0.3), bundle="axis+face18", devs=1, **base))
     if tier == "thorough":
         for b in ("axis+diag14", "axis+face18"):
             out.append(dict(types=["CH4"], molecules=[("CH4", 2)], bundle=b, **base))
@@ -88,7 +91,7 @@ def run_case(case):
         res = run_exec(sysdef, Chooser(case["choices"]))
         v, _ = judge(sysdef, res, case["choices"])
         return dict(evals=1, keys=[], violations=v, stats={})
-    d = 2 if case["tier"] == "quick" else 3
+    d = sysdef.get("devs") or (2 if case["tier"] == "quick" else 3)
     bounds = {"vec": d, "grid": 1, "*": d}
     evals, keys, viols, traces, ntrans = 0, set(), [], set(), 0
     stats = dict(executions=0, horizon_cuts=0, natural_rejections=0, boundary_crossings=0, unowned_random_draws=0, adds_checked=0)
